@@ -1161,9 +1161,103 @@ fn update_flattened_enums(rng: &mut Rng, st: &mut Stats) {
     }
 }
 
+// ------------------------------------------------------------------ update frame over a boxed flattened struct with a required field
+
+#[derive(Args, Clone, Debug, PartialEq)]
+pub struct BoxedInner {
+    #[arg(long)]
+    req: String,
+    #[arg(long)]
+    num: u32,
+    #[arg(long)]
+    opt: Option<String>,
+}
+
+#[derive(Parser, Clone, Debug, PartialEq)]
+#[command(name = "ub")]
+pub struct UB {
+    #[arg(long)]
+    top: Option<u32>,
+    #[command(flatten)]
+    boxed: Box<BoxedInner>,
+    #[command(flatten)]
+    plain: PlainInner,
+}
+
+#[derive(Args, Clone, Debug, PartialEq)]
+pub struct PlainInner {
+    #[arg(long)]
+    preq: String,
+    #[arg(long)]
+    popt: Option<u32>,
+}
+
+fn update_boxed_flatten(rng: &mut Rng, st: &mut Stats) {
+    st.count("type.UB");
+    let held = UB {
+        top: opt(rng, |r| r.below(1000) as u32),
+        boxed: Box::new(BoxedInner { req: word(rng), num: rng.below(1000) as u32, opt: opt(rng, word) }),
+        plain: PlainInner { preq: word(rng), popt: opt(rng, |r| r.below(1000) as u32) },
+    };
+    let mut want = held.clone();
+    let mut uargv = vec!["prog".to_string()];
+    let mut named = vec![];
+    if rng.coin() {
+        let v = rng.below(1000) as u32;
+        uargv.push(format!("--top={}", v));
+        want.top = Some(v);
+        named.push("top");
+    }
+    if rng.chance(1, 3) {
+        let v = word(rng);
+        uargv.push(format!("--req={}", v));
+        want.boxed.req = v;
+        named.push("req");
+    }
+    if rng.chance(1, 3) {
+        let v = rng.below(1000) as u32;
+        uargv.push(format!("--num={}", v));
+        want.boxed.num = v;
+        named.push("num");
+    }
+    if rng.coin() {
+        let v = word(rng);
+        uargv.push(format!("--opt={}", v));
+        want.boxed.opt = Some(v);
+        named.push("opt");
+    }
+    if rng.chance(1, 3) {
+        let v = word(rng);
+        uargv.push(format!("--preq={}", v));
+        want.plain.preq = v;
+        named.push("preq");
+    }
+    if rng.coin() {
+        let v = rng.below(1000) as u32;
+        uargv.push(format!("--popt={}", v));
+        want.plain.popt = Some(v);
+        named.push("popt");
+    }
+    let stratum = if named.contains(&"req") && named.contains(&"num") { "boxed-required-named" } else { "boxed-required-not-named" };
+    st.eval();
+    st.nontrivial(mix(hash_str("UB"), hash_str(&format!("{:?}{:?}", held, uargv))));
+    let mut u = held.clone();
+    match catch(|| u.try_update_from(uargv.clone())) {
+        Err(p) => st.violation(format!("panic:update@{}", p.loc), format!("{} | UB argv={:?}", p.msg, uargv)),
+        Ok(Err(e)) => st.violation(format!("c15:update-rejected:{}", stratum), format!("UB: update of {:?} with {:?} rejected: {:?}", held, uargv, e.kind())),
+        Ok(Ok(())) => {
+            st.count(&format!("update.flattened-struct.{}", stratum));
+            if u != want {
+                st.violation(format!("c15:update:flattened-struct-wrong:{}", stratum), format!("UB: {:?} updated with {:?} is {:?}, expected {:?}", held, uargv, u, want));
+            }
+        }
+    }
+}
+
 pub fn case(seed: u64, st: &mut Stats) {
     let mut rng = Rng::new(seed);
-    match rng.below(12) {
+    match rng.below(13) {
+        12 => update_boxed_flatten(&mut rng, st),
         11 => update_flattened_enums(&mut rng, st),
         10 => check::<N>(&mut rng, st),
         9 => update_subcommands(&mut rng, st),
